@@ -226,7 +226,7 @@ func genC19(g *Rng, tier string) *Plan {
 		case 9:
 			st = c19Step{Op: "delete_session", Slot: g.Intn(3)}
 		case 10:
-			st = c19Step{Op: "advance", Ms: Pick(g, int64(1000), 60_000, 1_800_000, 3_600_000, 7_200_000, -1, -2, -3), Slot: g.Intn(3)}
+			st = c19Step{Op: "advance", Ms: Pick(g, int64(1000), 60_000, 1_800_000, 3_600_000, 7_200_000, -1, -2, -3, -4, -5), Slot: Pick(g, -1, -1, 0, 1, 2)}
 		case 11:
 			st = c19Step{Op: Pick(g, "list_users", "get_user", "list_sessions", "get_session", "list_services", "get_service", "list_shortcuts", "get_shortcut"),
 				User: Pick(g, c19Users...), Svc: Pick(g, c19Svcs...), Sc: Pick(g, c19Scs...), Slot: g.Intn(3)}
@@ -252,6 +252,15 @@ func genC19(g *Rng, tier string) *Plan {
 				steps = append(steps, c19Step{Op: "shortcut", Sc: st.Sc, Cookie: "slot", Slot: g.Intn(2)})
 			}
 		}
+	}
+	if g.Bool(0.3) {
+		// targeted: a fresh login, the clock moved to a chosen position around that session's expiry, then its cookie is used
+		u := Pick(g, c19Users...)
+		ver++
+		steps = append(steps, c19Step{Op: "seed_user", User: u, Pw: "set", Ver: ver}, c19Step{Op: "put_service", Svc: "s0", SP: 0},
+			c19Step{Op: "login", User: u, Pw: "right"},
+			c19Step{Op: "advance", Ms: Pick(g, int64(-2), -1, -3, -4, -5, 3_599_000, 3_601_000), Slot: -1},
+			Pick(g, c19Step{Op: "sso", SP: 0, Cookie: "slot", Slot: -1, Bind: "redirect"}, c19Step{Op: "shortcut", Sc: Pick(g, c19Scs...), Cookie: "slot", Slot: -1}))
 	}
 	for _, s := range steps {
 		p.Steps = append(p.Steps, mustJSON(s))
@@ -364,13 +373,24 @@ func (w *c19World) liveSession(st c19Step) (*mSession, string) {
 	case "forged":
 		return nil, "Zm9yZ2VkLXNlc3Npb24taWQ="
 	case "slot":
-		if st.Slot < len(w.sessions) {
-			s := &w.sessions[st.Slot]
+		if i := w.slot(st.Slot); i >= 0 {
+			s := &w.sessions[i]
 			return s, s.Cookie
 		}
 		return nil, ""
 	}
 	return nil, ""
+}
+
+// slot resolves a plan's slot reference (-1: the most recent session) to an index, or -1.
+func (w *c19World) slot(ref int) int {
+	if ref == -1 {
+		return len(w.sessions) - 1
+	}
+	if ref >= 0 && ref < len(w.sessions) {
+		return ref
+	}
+	return -1
 }
 
 // sessState: 0 live, 1 edge (now == expiry), 2 dead/absent
@@ -451,8 +471,8 @@ func (w *c19World) step(st c19Step, res *Result) (expected, observed c19Outcome,
 	case "advance":
 		d := st.Ms
 		if d < 0 {
-			if st.Slot < len(w.sessions) {
-				target := w.sessions[st.Slot].ExpireMs + map[int64]int64{-1: 0, -2: -1, -3: 1}[d]
+			if i := w.slot(st.Slot); i >= 0 {
+				target := w.sessions[i].ExpireMs + map[int64]int64{-1: 0, -2: -1, -3: 1, -4: 500, -5: 999}[d]
 				if target > w.nowMs {
 					w.nowMs = target
 				}
@@ -571,15 +591,16 @@ func (w *c19World) step(st c19Step, res *Result) (expected, observed c19Outcome,
 			delete(w.shortcuts, st.Sc)
 		}
 	case "delete_session":
-		if st.Slot >= len(w.sessions) {
+		di := w.slot(st.Slot)
+		if di < 0 {
 			return c19Outcome{Class: "OK"}, c19Outcome{Class: "OK"}, false, "", true, nil // nothing to do
 		}
-		key := "/sessions/" + w.sessions[st.Slot].Cookie
+		key := "/sessions/" + w.sessions[di].Cookie
 		prev := w.store.data[key]
-		rep = deliver(w.srv, "DELETE", base+"/sessions/"+url.PathEscape(w.sessions[st.Slot].Cookie), "", "", nil)
+		rep = deliver(w.srv, "DELETE", base+"/sessions/"+url.PathEscape(w.sessions[di].Cookie), "", "", nil)
 		expected = c19Outcome{Class: "OK"}
 		if w.applied(key, prev, before) || w.store.fired == before {
-			w.sessions[st.Slot].Deleted = true
+			w.sessions[di].Deleted = true
 		}
 	case "login":
 		pw := w.password(st.User, st.Pw)
@@ -727,10 +748,11 @@ func (w *c19World) step(st c19Step, res *Result) (expected, observed c19Outcome,
 			expected = c19Outcome{Class: "ERROR"}
 		}
 	case "get_session":
-		if st.Slot >= len(w.sessions) {
+		gi := w.slot(st.Slot)
+		if gi < 0 {
 			return c19Outcome{Class: "OK"}, c19Outcome{Class: "OK"}, false, "", true, nil
 		}
-		s := w.sessions[st.Slot]
+		s := w.sessions[gi]
 		rep = deliver(w.srv, "GET", base+"/sessions/"+url.PathEscape(s.Cookie), "", "", nil)
 		if s.Deleted {
 			expected = c19Outcome{Class: "ERROR"}
@@ -1053,8 +1075,17 @@ func execC19(t *testing.T, p *Plan) *Result {
 					fw.store.calls = 0
 					fw.store.faultAt, fw.store.faultKind = j-prevCalls, kind
 					res.Extra["fault_placements"]++
+					var twinObs c19Outcome
+					var twinDC bool
+					var twin *c19World // after a truthful failure (error before anything was applied): a server restarted right then
 					for i := sidx; i < len(steps); i++ {
 						st := steps[i]
+						if twin != nil {
+							// the restarted twin serves the same request; it must answer like the original
+							texp, tobs, tdc, _, _, _ := twin.step(st, res)
+							_ = texp
+							twinObs, twinDC = tobs, tdc
+						}
 						if st.Op == "restart" && fw.store.fired == "" {
 							var err error
 							crashed := guard(func() { err = fw.newServer() })
@@ -1070,7 +1101,24 @@ func execC19(t *testing.T, p *Plan) *Result {
 							fw.maybeReg = nil
 							continue
 						}
+						wasFaulted := fw.faulted
 						exp, obs, dc, leak, well, pan := fw.step(st, res)
+						if twin != nil && st.Op != "restart" && !dc && !twinDC && pan == nil && twinObs != obs {
+							res.logf("fault %s at store call %d (%s), server restarted right after the failed request: step %d %s original=%s restarted=%s", kind, j, fw.store.fired, i, c19Describe(st), obs, twinObs)
+							res.violate(i, "restart-divergence", "C19/restart-divergence-after-store-error/"+st.Op+"/"+obs.Class+"->"+twinObs.Class,
+								"a server re-created over the store after the failed request continues exactly as the original ("+obs.String()+")", twinObs.String(), fmt.Sprintf("fault %s@call%d", kind, j))
+							return res
+						}
+						if kind == "io" && fw.faulted && !wasFaulted && twin == nil && pan == nil {
+							twin = fw.fork()
+							twin.faulted = true
+							twin.installClock()
+							if err := twin.newServer(); err != nil {
+								twin = nil
+							}
+							fw.installClock()
+							res.Extra["restart_twins_after_store_error"]++
+						}
 						if fw.faulted && (st.Op == "sso" || st.Op == "shortcut") && fw.lastAlt.Class != "" && obs == fw.lastAlt {
 							res.Extra["ambiguous_registration_accepted"]++
 							continue
